@@ -39,6 +39,8 @@ func init() {
 			{ID: "R10p", Floor: 1, Doc: "ReplaceRootsInFile reports success only as the outcome of writing the new header: it has no `return nil` of its own (a same-roots shortcut, compared by multihash, leaves other roots in place)", Run: ruleR10p},
 			{ID: "R10q", Floor: 1, Doc: "index generation hands all records to the index in one Load (the sorted indexes replace a bucket on every Load) (= R03h)", Run: ruleR03h},
 			{ID: "R10r", Floor: 6, Doc: "the index of a wrap lists every section: nothing is dropped between sorting and compaction (= R11b)", Run: ruleR11b},
+			{ID: "R10s", Floor: 1, Doc: "a wrap is indexed under the options the caller gave: WrapV1 forwards its options to index generation (= R03l)", Run: ruleR07c},
+			{ID: "R10t", Floor: 2, Doc: "the index of a wrap holds every hash function's records: load loops store a fresh object, built around fresh maps, per iteration (= R11i)", Run: ruleR11i},
 		},
 	})
 }
